@@ -60,7 +60,8 @@ Drifts(t, i, ac) ==
 (* vacuity counters, accumulated by TLC along each trace and printed at its end.
    part a: <<steps, a<b, a=b, a>b, 0>>
    part b: <<steps, algorithms that must be queued, algorithms that must stay out,
-             analyses that must be queued, steps with no known target>> *)
+             analyses that must be queued, steps with no known target>>
+   (TraceInit / TraceNext append the number of failing clauses) *)
 B2N(x) == IF x THEN 1 ELSE 0
 StatOf(t, i, rf) ==
     LET r == Rec(t, i) IN
@@ -74,8 +75,11 @@ StatOf(t, i, rf) ==
               B2N(r.args.targets = <<>>)>>
 Plus(x, y) == [k \in DOMAIN x |-> x[k] + y[k]]
 
+(* one short row per failing clause: TLC wraps printed values longer than a line,
+   and the output parser reads single lines.  The last component of the STAT row
+   is the number of clause failures of the trace, so a lost row is noticed. *)
 Report(t, i, b, d, s) ==
-    /\ (b # {} => PrintT(<<"CLAUSE", Traces[t].tid, i, Rec(t, i).ev, b>>))
+    /\ \A c \in b : PrintT(<<"CLAUSE", Traces[t].tid, i, Rec(t, i).ev, {c}>>)
     /\ (d => PrintT(<<"DRIFT", Traces[t].tid, i, Rec(t, i).ev>>))
     /\ (i = Len(Traces[t].steps) => PrintT(<<"STAT", Traces[t].tid, Traces[t].part, s>>))
 
@@ -87,7 +91,7 @@ TraceInit ==
     /\ act = ActOf(tid, 1)
     /\ bad = Eval(tid, 1, ref, act)
     /\ drift = Drifts(tid, 1, act)
-    /\ stat = StatOf(tid, 1, ref)
+    /\ stat = StatOf(tid, 1, ref) \o <<Cardinality(bad)>>
     /\ Report(tid, 1, bad, drift, stat)
 
 TraceNext ==
@@ -98,7 +102,7 @@ TraceNext ==
     /\ act' = ActOf(tid, l + 1)
     /\ bad' = Eval(tid, l + 1, ref', act')
     /\ drift' = Drifts(tid, l + 1, act')
-    /\ stat' = Plus(stat, StatOf(tid, l + 1, ref'))
+    /\ stat' = Plus(stat, StatOf(tid, l + 1, ref') \o <<Cardinality(bad')>>)
     /\ Report(tid, l + 1, bad', drift', stat')
 
 TraceSpec == TraceInit /\ [][TraceNext]_tvars
